@@ -74,24 +74,29 @@ def delegation(repo, res):
     fn = uo.func("Unit.get_conversion_factor")
     c = _single_return_call(fn)
     res.check(c is not None and norm(c) == f"_get_conversion_factor(self, {fn.params[1]}, {fn.params[2]})", "Unit.get_conversion_factor", fn.where(), "the method is the routine applied to (self, other, dtype)", rid=r1)
-    # to_value: quantity -> float of the converted value; array -> the value
+    # to_value: quantity -> float of the converted value; array -> the value (path summaries: locals substituted)
     fn = arr.func("unyt_array.to_value")
     res.fn(fn)
+    from engine.sem import summarise
+
     ok = True
-    for p in enum_paths(fn.body):
-        end = p[-1]
-        fm = dict((t, tr) for t, tr, _ in path_facts(p))
-        if end[0] != "return":
+    seen = set()
+    conv = "self.in_units(units, equivalence=equivalence, **kwargs).value"
+    for x in summarise(fn):
+        if x.kind != "return":
             ok = False
             continue
-        ok &= norm(end[1].value) in ("v", "float(v)")
-    defs = [norm(n.value) for n in walk_no_nested(fn.node) if isinstance(n, ast.Assign) and norm(n.targets[0]) == "v"]
-    ok &= sorted(defs) == sorted(["self.value", "self.in_units(units, equivalence=equivalence, **kwargs).value"])
-    res.check(ok, "to_value", fn.where(), "to_value returns the bare value of the same conversion", found=defs, rid=r1)
+        base = "self.value" if x.has("units is None", True) else conv
+        ok &= x.value in (base, f"float({base})")
+        seen.add(base)
+    ok &= seen == {"self.value", conv}
+    res.check(ok, "to_value", fn.where(), "to_value returns the bare value of the same conversion (in_units with the same units, equivalence and keyword arguments)", found=sorted(seen), rid=r1)
     # in_base: same target as get_base_equivalent
     fn = arr.func("unyt_array.in_base")
     res.fn(fn)
-    calls = [norm(c) for c in ast.walk(fn.node) if isinstance(c, ast.Call)]
+    from engine.sem import cnorm
+
+    calls = [cnorm(c) for c in ast.walk(fn.node) if isinstance(c, ast.Call)]
     res.check("self.units.get_base_equivalent(unit_system)" in calls and "_sanitize_unit_system(unit_system, self)" in calls, "in_base-target", fn.where(), "in_base converts into the unit get_base_equivalent reports for the same unit system argument", rid=r1)
     # ... and that target is re-created in the array's own registry: a unit system's units live in the registry the
     # system was built with (the default one for the built-in systems), so without this the base route would divide
